@@ -8,11 +8,11 @@ Property theorems only (helper lemmas: `Proofs/Block.lean`, `Proofs/Tx.lean`).  
 `computeMerkleRoot` = `common.ComputeMerkleRoot`.  Abstract parameters: `K.canon` (public-key decode + re-encode),
 `R` (go-ethereum RLP, only through C19), `hs` (hash functions).
 
-The shipped decoder (`Variant.asShipped`) does **not** re-encode to the input in two situations (both recorded as
-low-severity findings: the block hash is not affected):
- * a bookkeeper key blob that `keypair.DeserializePublicKey` accepts but that is not the canonical serialisation;
- * a bookkeeper / signature count `≥ 2^63`: `int(n)` is negative, the loop body never runs, the list is empty.
-`Variant.sound` (iterate `n` times, reject non-canonical blobs) satisfies the full statement.
+The shipped decoder (`Variant.asShipped`) does **not** re-encode to the input for a bookkeeper key blob that
+`keypair.DeserializePublicKey` accepts but that is not the canonical serialisation (recorded low-severity finding: the
+block hash is not affected).  `Variant.sound` (reject non-canonical blobs) satisfies the full statement.  Two further
+defects found here are repaired in /repo and no longer in the model: list counts `≥ 2^63` (`int(n) < 0`: zero
+iterations) and the `makeslice` panic of `CrossChainMsg.Deserialization`; their witnesses stay in `corpus/C20/`.
 -/
 namespace OntVerif.Props.C20
 open OntVerif.Util OntVerif.Model.Codec OntVerif.Model.Tx OntVerif.Model.Block
@@ -35,14 +35,14 @@ def C20_full_statement (V : Variant) : Prop :=
   ∀ (K : Keys) (s : Src) (h : Header) (s' : Src), s.wf → parseHeader V K s = .ok h s' → serHeader h = consumed s s'
 
 /-- **Header round trip, as shipped**: the decoded header re-encodes to the consumed bytes provided every bookkeeper
-blob is its own canonical encoding and the two list counts are below `2^63`. -/
+blob is its own canonical encoding. -/
 theorem C20_header_reencode_partial (K : Keys) (s : Src) (w : s.wf) (h : Header) (s' : Src)
     (hp : parseHeader .asShipped K s = .ok h s')
-    (hcanon : h.bookkeepers = h.bkRaw) (hn : h.bkCount < two63) (hm : h.sigCount < two63) :
+    (hcanon : h.bookkeepers = h.bkRaw) :
     serHeader h = consumed s s' := by
   obtain ⟨_, post⟩ := header_post_of_ok w hp
   rw [← seg_eq_consumed]
-  exact header_reencode post hcanon (by simp [loopCount, hn]) (by simp [loopCount, hm])
+  exact header_reencode post hcanon
 
 /-- the hypothesis `h.bookkeepers = h.bkRaw` says: every blob on the wire is a fixed point of decode-then-encode -/
 theorem C20_canon_hypothesis_meaning (V : Variant) (K : Keys) (s : Src) (w : s.wf) (h : Header) (s' : Src)
@@ -66,23 +66,23 @@ theorem C20_sound_full : C20_full_statement .sound := by
   intro K s h s' w hp
   obtain ⟨_, post⟩ := header_post_of_ok w hp
   rw [← seg_eq_consumed]
-  exact header_reencode post (post.2.2.2.2.2.2 rfl) rfl rfl
+  exact header_reencode post (post.2.2.2.2.2.2 rfl)
 
 /-- **Block round trip**: header as above, then the u32 count and the `Raw` of every transaction (C19). -/
 theorem C20_reencode_partial (K : Keys) (R : Rlp) (hR : R.canonical) (hs : Hashes) (s : Src) (w : s.wf)
     (b : Block) (s' : Src) (hp : parseBlock .asShipped K R hs s = .ok b s')
-    (hcanon : b.header.bookkeepers = b.header.bkRaw) (hn : b.header.bkCount < two63) (hm : b.header.sigCount < two63) :
+    (hcanon : b.header.bookkeepers = b.header.bkRaw) :
     serBlock b = consumed s s' := by
   obtain ⟨_, s1, adv1, adv2, hpost, hlt, _, _, hseg⟩ := block_post_of_ok w hp
   rw [← seg_eq_consumed, seg_trans adv1 adv2, hseg hR,
-    ← header_reencode hpost hcanon (by simp [loopCount, hn]) (by simp [loopCount, hm])]
+    ← header_reencode hpost hcanon]
   unfold serBlock
   rw [Nat.mod_eq_of_lt (by omega), List.append_assoc]
 
 theorem C20_reencode_sound (K : Keys) (R : Rlp) (hR : R.canonical) (hs : Hashes) (s : Src) (w : s.wf)
     (b : Block) (s' : Src) (hp : parseBlock .sound K R hs s = .ok b s') : serBlock b = consumed s s' := by
   obtain ⟨_, s1, adv1, adv2, hpost, hlt, _, _, hseg⟩ := block_post_of_ok w hp
-  rw [← seg_eq_consumed, seg_trans adv1 adv2, hseg hR, ← header_reencode hpost (hpost.2.2.2.2.2.2 rfl) rfl rfl]
+  rw [← seg_eq_consumed, seg_trans adv1 adv2, hseg hR, ← header_reencode hpost (hpost.2.2.2.2.2.2 rfl)]
   unfold serBlock
   rw [Nat.mod_eq_of_lt (by omega), List.append_assoc]
 
@@ -183,35 +183,18 @@ theorem C20_dup_last_same_root (node : Bytes → Bytes → Bytes) (a b c : Bytes
     computeMerkleRoot node [a, b, c] = computeMerkleRoot node [a, b, c, c] := rfl
 
 
-/-! ### After `fixes/C20-header-count-wrap.patch` (`Variant.countFixed`): only the key-encoding hypothesis remains -/
-
-theorem C20_header_reencode_countFixed_partial (K : Keys) (s : Src) (w : s.wf) (h : Header) (s' : Src)
-    (hp : parseHeader .countFixed K s = .ok h s') (hcanon : h.bookkeepers = h.bkRaw) :
-    serHeader h = consumed s s' := by
-  obtain ⟨_, post⟩ := header_post_of_ok w hp
-  rw [← seg_eq_consumed]
-  exact header_reencode post hcanon rfl rfl
-
-theorem C20_reencode_countFixed_partial (K : Keys) (R : Rlp) (hR : R.canonical) (hs : Hashes) (s : Src) (w : s.wf)
-    (b : Block) (s' : Src) (hp : parseBlock .countFixed K R hs s = .ok b s')
-    (hcanon : b.header.bookkeepers = b.header.bkRaw) : serBlock b = consumed s s' := by
-  obtain ⟨_, s1, adv1, adv2, hpost, hlt, _, _, hseg⟩ := block_post_of_ok w hp
-  rw [← seg_eq_consumed, seg_trans adv1 adv2, hseg hR, ← header_reencode hpost hcanon rfl rfl]
-  unfold serBlock
-  rw [Nat.mod_eq_of_lt (by omega), List.append_assoc]
-
 /-! ### `RawHeader.Deserialization` -/
 
-theorem C20_rawheader_total (V : Variant) (s : Src) (w : s.wf) : parseRawHeader V s ≠ .panic := by
-  have := parseRawHeader_spec V s w
+theorem C20_rawheader_total (s : Src) (w : s.wf) : parseRawHeader s ≠ .panic := by
+  have := parseRawHeader_spec s w
   unfold SpecAt at this
   intro h; rw [h] at this; exact this
 
 /-- `RawHeader.Payload` is exactly the consumed bytes (so `RawHeader.Serialization` reproduces the input) -/
-theorem C20_rawheader_payload (V : Variant) (s : Src) (w : s.wf) (r : RawHeader) (s' : Src)
-    (hp : parseRawHeader V s = .ok r s') :
+theorem C20_rawheader_payload (s : Src) (w : s.wf) (r : RawHeader) (s' : Src)
+    (hp : parseRawHeader s = .ok r s') :
     r.payload = consumed s s' ∧ s'.bs = s.bs ∧ s.off ≤ s'.off ∧ s'.off ≤ s.bs.length := by
-  have := parseRawHeader_spec V s w
+  have := parseRawHeader_spec s w
   unfold SpecAt at this
   rw [hp] at this
   obtain ⟨adv, hpl⟩ := this
@@ -219,73 +202,18 @@ theorem C20_rawheader_payload (V : Variant) (s : Src) (w : s.wf) (r : RawHeader)
 
 /-! ### `CrossChainMsg.Deserialization` -/
 
-/-- the repaired decoder never panics -/
-theorem C20_ccm_total (V : Variant) (hV : V ≠ .asShipped) (s : Src) (w : s.wf) : parseCCMsg V s ≠ .panic := by
-  have : SpecAt (parseCCMsg V) s (fun _ _ => True) := by
-    unfold parseCCMsg
-    apply spec_bind' (parseCCMPrefix_spec s w)
-    intro a s1 adv1 _
-    exact spec_true (parseCCMRest_spec V a (fun h => absurd h hV) s1 (adv1.wf w))
+theorem C20_ccm_total (s : Src) (w : s.wf) : parseCCMsg s ≠ .panic := by
+  have := parseCCMsg_spec s w
   unfold SpecAt at this
   intro h; rw [h] at this; exact this
 
-/-- the shipped decoder panics only through `make([][]byte, 0, sigLen)`: the four leading fields were read and the
-count times 24 exceeds `maxAlloc` -/
-theorem C20_ccm_total_partial (s : Src) (w : s.wf) (hp : parseCCMsg .asShipped s = .panic) :
-    ∃ a s1, parseCCMPrefix s = .ok a s1 ∧ a.2.2.2 * sliceHeaderSize > maxAlloc := by
-  have hpre := parseCCMPrefix_spec s w
-  unfold SpecAt at hpre
-  unfold parseCCMsg at hp
-  rw [bind_eval] at hp
-  cases hq : parseCCMPrefix s with
-  | ok a s1 =>
-    rw [hq] at hp hpre
-    simp only at hp
-    refine ⟨a, s1, rfl, ?_⟩
-    by_cases hbig : makeslicePanics a.2.2.2 = true
-    · unfold makeslicePanics at hbig; simpa using hbig
-    · exfalso
-      have := parseCCMRest_spec .asShipped a (fun _ => by simpa using hbig) s1 (hpre.1.wf w)
-      unfold SpecAt at this
-      rw [hp] at this
-      exact this
-  | err e => rw [hq] at hp; simp at hp
-  | panic => rw [hq] at hpre; exact absurd hpre (by simp)
-
-/-- **Witness** (`crosschainmsg-count-makeslice-panic`): 37 arbitrary bytes followed by the count 2^63 -/
-theorem C20_ccm_asShipped_panics :
-    (match parseCCMsg .asShipped ⟨List.replicate 37 0 ++ [0xff, 0, 0, 0, 0, 0, 0, 0, 0x80], 0⟩ with
-      | .panic => true
-      | _ => false) = true := by decide +kernel
-
-/-- an accepted message re-encodes to the consumed bytes (all variants) -/
-theorem C20_ccm_reencode (V : Variant) (s : Src) (w : s.wf) (m : CCMsg) (s' : Src)
-    (hp : parseCCMsg V s = .ok m s') : serCCMsg m = consumed s s' := by
-  have hpre := parseCCMPrefix_spec s w
-  unfold SpecAt at hpre
-  unfold parseCCMsg at hp
-  rw [bind_eval] at hp
-  cases hq : parseCCMPrefix s with
-  | ok a s1 =>
-    rw [hq] at hp hpre
-    simp only at hp
-    obtain ⟨adv1, hseg1⟩ := hpre
-    have hok : V = .asShipped → makeslicePanics a.2.2.2 = false := by
-      intro hV
-      subst hV
-      cases hb : makeslicePanics a.2.2.2
-      · rfl
-      · unfold parseCCMRest at hp
-        simp [hb] at hp
-    have := parseCCMRest_spec V a hok s1 (adv1.wf w)
-    unfold SpecAt at this
-    rw [hp] at this
-    obtain ⟨adv2, hseg2, hl, hv, hh, hr⟩ := this
-    rw [← seg_eq_consumed, seg_trans adv1 adv2, hseg1, hseg2]
-    unfold serCCMsg serList
-    rw [hl, hv, hh, hr]
-  | err e => rw [hq] at hp; simp at hp
-  | panic => rw [hq] at hp; simp at hp
+/-- an accepted message re-encodes to the consumed bytes -/
+theorem C20_ccm_reencode (s : Src) (w : s.wf) (m : CCMsg) (s' : Src)
+    (hp : parseCCMsg s = .ok m s') : serCCMsg m = consumed s s' := by
+  have := parseCCMsg_spec s w
+  unfold SpecAt at this
+  rw [hp] at this
+  rw [← seg_eq_consumed, this.2]
 
 /-! ### Witnesses: the as-shipped decoder violates the full statement (these are also the replay lines of the two
 recorded findings), and the hypotheses of the theorems above are satisfiable -/
@@ -300,19 +228,11 @@ def exUnsigned : Bytes := List.replicate 104 0 ++ [7, 0, 0, 0] ++ List.replicate
 def exHdrAlt : Bytes := exUnsigned ++ [1, 4, 4, 1, 2, 3] ++ [1, 2, 0xaa, 0xbb]
 /-- the same header with the canonical encoding of the same key -/
 def exHdrCanon : Bytes := exUnsigned ++ [1, 2, 2, 1] ++ [1, 2, 0xaa, 0xbb]
-/-- bookkeeper count 2^63 (`int(n) < 0`), then signature count 0 -/
-def exHdrWrap : Bytes := exUnsigned ++ [0xff, 0, 0, 0, 0, 0, 0, 0, 0x80] ++ [0]
-
 theorem C20_witness_alt_eval : (match parseHeader .asShipped exKeys ⟨exHdrAlt, 0⟩ with
       | .ok h s' => serHeader h != consumed ⟨exHdrAlt, 0⟩ s' && s'.off == exHdrAlt.length && h.bookkeepers == [[2, 1]]
       | _ => false) = true := by decide +kernel
 
-theorem C20_witness_count_eval : (match parseHeader .asShipped exKeys ⟨exHdrWrap, 0⟩ with
-      | .ok h s' => serHeader h != consumed ⟨exHdrWrap, 0⟩ s' && s'.off == exHdrWrap.length && h.bookkeepers == []
-      | _ => false) = true := by decide +kernel
-
 theorem C20_witness_alt_wf : (⟨exHdrAlt, 0⟩ : Src).wf := ⟨Nat.zero_le _, by decide +kernel⟩
-theorem C20_witness_count_wf : (⟨exHdrWrap, 0⟩ : Src).wf := ⟨Nat.zero_le _, by decide +kernel⟩
 
 /-- **Counterexample 1** (`noncanonical-bookkeeper-key-reencode`): a header with a bookkeeper blob in an alternative
 encoding is accepted and re-encodes to different bytes. -/
@@ -327,39 +247,25 @@ theorem C20_asShipped_counterexample : ¬ C20_full_statement .asShipped := by
   | err e => rw [hp] at key; simp at key
   | panic => rw [hp] at key; simp at key
 
-/-- **Counterexample 2** (`header-list-count-int-wrap-reencode`): all blobs canonical (there are none), but the
-bookkeeper count `2^63` is accepted as "no bookkeepers" and re-encoded as `00`. -/
-theorem C20_asShipped_counterexample_count :
-    ¬ (∀ (K : Keys) (s : Src) (h : Header) (s' : Src), s.wf → parseHeader .asShipped K s = .ok h s' →
-        h.bookkeepers = h.bkRaw → serHeader h = consumed s s') := by
-  intro hfull
-  have key := C20_witness_count_eval
-  cases hp : parseHeader .asShipped exKeys ⟨exHdrWrap, 0⟩ with
-  | ok h s' =>
-    rw [hp] at key
-    obtain ⟨_, post⟩ := header_post_of_ok (s := ⟨exHdrWrap, 0⟩) C20_witness_count_wf hp
-    have hb : h.bookkeepers = [] := by
-      simp only [Bool.and_eq_true, beq_iff_eq] at key
-      exact key.2
-    have hraw : h.bkRaw = [] := by
-      have := post.2.2.2.2.1
-      rw [hb] at this
-      exact List.eq_nil_of_length_eq_zero this.symm
-    have := hfull exKeys ⟨exHdrWrap, 0⟩ h s' C20_witness_count_wf hp (by rw [hb, hraw])
-    simp [this] at key
-  | err e => rw [hp] at key; simp at key
-  | panic => rw [hp] at key; simp at key
-
 /-- non-vacuity of `C20_header_reencode_partial`: a header that satisfies all its hypotheses -/
 example : (match parseHeader .asShipped exKeys ⟨exHdrCanon, 0⟩ with
-      | .ok h s' => h.bookkeepers == h.bkRaw && decide (h.bkCount < two63) && decide (h.sigCount < two63) &&
-          h.sigData == [[0xaa, 0xbb]] && s'.off == exHdrCanon.length && h.u.height == 7
+      | .ok h s' => h.bookkeepers == h.bkRaw && h.sigData == [[0xaa, 0xbb]] && s'.off == exHdrCanon.length && h.u.height == 7
       | _ => false) = true := by decide +kernel
 
-/-- the sound variant rejects both witnesses (non-canonical blob; count read literally: the next byte is not a key) -/
-example : (match parseHeader .sound exKeys ⟨exHdrAlt, 0⟩, parseHeader .sound exKeys ⟨exHdrWrap, 0⟩ with
+/-- the sound variant rejects the witness; a count of 2^63 is read literally by both variants (the next byte is not a key) -/
+example : (match parseHeader .sound exKeys ⟨exHdrAlt, 0⟩,
+      parseHeader .asShipped exKeys ⟨exUnsigned ++ [0xff, 0, 0, 0, 0, 0, 0, 0, 0x80] ++ [0], 0⟩ with
       | .err .invalid, .err .invalid => true
       | _, _ => false) = true := by decide +kernel
+
+/-- `RawHeader` and `CrossChainMsg` accept concrete inputs -/
+example : (match parseRawHeader ⟨exHdrAlt, 0⟩ with
+      | .ok r s' => r.height == 7 && r.payload == exHdrAlt && s'.off == exHdrAlt.length
+      | _ => false) = true := by decide +kernel
+
+example : (match parseCCMsg ⟨List.replicate 37 0 ++ [1, 2, 0xaa, 0xbb, 9], 0⟩ with
+      | .ok m s' => m.sigData == [[0xaa, 0xbb]] && s'.off == 41
+      | _ => false) = true := by decide +kernel
 
 /-- non-vacuity of the block theorems: a block with an empty transaction list (root = zero hash) is accepted -/
 def exHashes : Hashes := ⟨fun t => t.hashInput, fun a b => a ++ b, fun x => x⟩
